@@ -4,7 +4,10 @@
 //! being executed (a forced failure of `close` still releases the descriptor, as Linux does),
 //! (c) counts calls separately in a process forked by the operation and ships that process's records
 //! through a CLOEXEC pipe.  Descriptor tables are read with `fcntl(F_GETFD)` through the raw syscall
-//! (never logged, opens nothing).
+//! (never logged, opens nothing); `same_file` compares two numbers by the identity of the open file
+//! description (kcmp), `raw_dup_high` / `raw_set_nofile` let a harness choose the state of the table an
+//! operation is entered with (standard numbers free, table nearly full) while keeping its own channels
+//! on high numbers.
 #![allow(dead_code)]
 use std::cell::RefCell;
 
